@@ -167,6 +167,21 @@ fn orderable(t: &Ty) -> bool {
         _ => false,
     }
 }
+/// `+` is defined element-wise on every tuple of ints, floats and strings
+fn addable(t: &Ty) -> bool {
+    match t {
+        Ty::I | Ty::F | Ty::S => true,
+        Ty::T(ts) => !ts.is_empty() && ts.iter().all(addable),
+        _ => false,
+    }
+}
+fn has_str(t: &Ty) -> bool {
+    match t {
+        Ty::S => true,
+        Ty::T(ts) => ts.iter().any(has_str),
+        _ => false,
+    }
+}
 fn numeric(t: &Ty) -> bool {
     match t {
         Ty::I | Ty::F => true,
@@ -344,9 +359,14 @@ impl Check for C19 {
                         lines.push(Line { expr: format!("v{} >= v{}", i, j), expect: Some((o != Less).to_string()), key: (i, j, ">=") });
                     }
                 }
-                if (num || t == Ty::S) && i <= j + 1 {
+                if (num || addable(&t)) && i <= j + 1 {
                     for op in ['+', '-', '*', '/'] {
-                        if t == Ty::S && op != '+' {
+                        // strings (also as tuple elements) only concatenate; tuples mixing int and
+                        // float elements are not divided (the element results would change type)
+                        if has_str(&t) && op != '+' {
+                            continue;
+                        }
+                        if !num && op == '/' {
                             continue;
                         }
                         if let Some(r) = arith(op, a, b) {
@@ -424,6 +444,11 @@ impl Check for C19 {
             Loaded::Ok(c) => c,
             Loaded::GreyZone(_) => {
                 st.count("no_verdict_grey_zone");
+                return;
+            }
+            Loaded::Error { class, .. } if class.starts_with("limit") => {
+                // the workload itself exceeds a Lua limit (C06's open finding KF-C06-lua-limits): nothing to judge here
+                st.count("no_verdict_lua_limit_exceeded");
                 return;
             }
             Loaded::Error { class, msg, .. } => {
